@@ -34,11 +34,11 @@ func TestVerifC10SM2(t *testing.T) {
 	}
 	n := hk.N(60, 600)
 	for i := 0; i < n; i++ {
-		d := randScalar(rng)
+		d := zvRandScalar(rng)
 		if i%7 == 0 {
-			d = specialKeys()[rng.Intn(len(specialKeys()))]
+			d = zvSpecialKeys()[rng.Intn(len(zvSpecialKeys()))]
 		}
-		P := refPub(d)
+		P := zvRefPub(d)
 		place := []int{hk.PlaceMid, hk.PlaceEnd, hk.PlaceStart}[i%3]
 		idV := rng.Bytes(rng.Pick([]int{0, 1, 16, 55, 100}))
 		msgV := rng.Bytes(rng.Pick([]int{0, 1, 31, 32, 55, 64, 200}))
@@ -66,15 +66,15 @@ func TestVerifC10SM2(t *testing.T) {
 		}
 		calls := []call{
 			{"SignHashed", func() string {
-				a, b, err := SignHashed(newScript(stream), priv.B, e.B)
+				a, b, err := SignHashed(zvNewScript(stream), priv.B, e.B)
 				return fmt.Sprintf("%x,%x,%v", a, b, err)
 			}},
 			{"SignZa", func() string {
-				a, b, err := SignZa(newScript(stream), priv.B, za.B, msg.B)
+				a, b, err := SignZa(zvNewScript(stream), priv.B, za.B, msg.B)
 				return fmt.Sprintf("%x,%x,%v", a, b, err)
 			}},
 			{"Sign", func() string {
-				a, b, err := Sign(id.B, px.B, py.B, newScript(stream), priv.B, msg.B)
+				a, b, err := Sign(id.B, px.B, py.B, zvNewScript(stream), priv.B, msg.B)
 				return fmt.Sprintf("%x,%x,%v", a, b, err)
 			}},
 			{"VerifyHashed", func() string {
@@ -137,9 +137,9 @@ func TestVerifC10SM2(t *testing.T) {
 	// inputs as SUB-SLICES of one larger record (each has spare capacity reaching into the next field):
 	// nothing in the record may change, in any field order
 	for i := 0; i < hk.N(120, 1200); i++ {
-		lr := hk.NewRNG(hk.Seed(), caseID("c10rec", i))
-		d := randScalar(lr)
-		P := refPub(d)
+		lr := hk.NewRNG(hk.Seed(), zvCaseID("c10rec", i))
+		d := zvRandScalar(lr)
+		P := zvRefPub(d)
 		idV, msgV := lr.Bytes(lr.Pick([]int{0, 16, 33})), lr.Bytes(lr.Pick([]int{0, 32, 70}))
 		za0, _ := ref.SM2ZA(idV, ref.B32(P.X), ref.B32(P.Y))
 		eV := ref.SM2E(za0, msgV)
@@ -183,11 +183,11 @@ func TestVerifC10SM2(t *testing.T) {
 				return fmt.Sprint(ok)
 			}, "true"},
 			{"SignHashed", func() string {
-				a, b, _ := SignHashed(newScript(stream), get("priv"), get("e"))
+				a, b, _ := SignHashed(zvNewScript(stream), get("priv"), get("e"))
 				return hk.Hex(a) + hk.Hex(b)
 			}, hk.Hex(ref.B32(m.R)) + hk.Hex(ref.B32(m.S))},
 			{"Sign", func() string {
-				a, b, _ := Sign(get("id"), get("px"), get("py"), newScript(stream), get("priv"), get("msg"))
+				a, b, _ := Sign(get("id"), get("px"), get("py"), zvNewScript(stream), get("priv"), get("msg"))
 				return hk.Hex(a) + hk.Hex(b)
 			}, hk.Hex(ref.B32(m.R)) + hk.Hex(ref.B32(m.S))},
 			{"ZA", func() string { z, _ := ZA(get("id"), get("px"), get("py")); return hk.Hex(z) }, hk.Hex(za0)},
